@@ -253,6 +253,31 @@ def r2(cx):
                     any(_old_value(F, du, a)[0] is not None for a in c[0]['t']['a'])]
             if cmp_:
                 cas.append((b, t, cs, cmp_[-1]))
+            else:
+                # `old != new || <reviewed extra reason>`: the comparison does not dominate the call, but the call is reached only
+                # through its "different" edge or through the reviewed edge (enter_subshell: option == Ignore, where the call
+                # also unblocks the signal, C08.R3b)
+                diff_edges, extra_edges, cmp_c = set(), set(), None
+                for u in sorted(body.live_blocks()):
+                    ec = Q.edge_condition(F, body, du, u)
+                    if not ec or ec[0]['k'] != 'call' or not Q.callee_is(ec[0]['t'], NE + EQ):
+                        continue
+                    ct = ec[0]['t']
+                    is_ne = Q.callee_is(ct, NE)
+                    consts = eq_const_args(body, du, ct)
+                    for tgt, labs in ec[1].items():
+                        for lab in labs:
+                            differs = lab[1] if is_ne else not lab[1]
+                            if len(ct['a']) == 2 and any(_old_value(F, du, a)[0] is not None for a in ct['a']) and differs:
+                                diff_edges.add((u, tgt))
+                                cmp_c = (ec[0], lab, ((u, tgt)))
+                            if fn.endswith('::enter_subshell') and any(n.endswith('EnterSubshellOption::Ignore') for n in consts) and \
+                                    (lab[1] if not is_ne else not lab[1]):
+                                extra_edges.add((u, tgt))
+                if cmp_c and diff_edges and b not in body.reachable(0, removed_edges=diff_edges | extra_edges) and \
+                        b in body.reachable(0, removed_edges=extra_edges):
+                    cs2 = [c for c in cs]
+                    cas.append((b, t, cs2, (cmp_c[0], cmp_c[1], (cmp_c[2][0], cmp_c[2][1]))))
         cx.site('%s: commit of %s at %s; compare-and-set set_disposition at %s' % (body.fn, fld, body.loc(ws), [body.loc(t) for _, t, _, _ in cas]))
         if len(cas) != 1:
             cx.violation(fn, 'no-compare-and-set', 'the update of %s is not accompanied by exactly one set_disposition call on the '
@@ -443,9 +468,77 @@ def r4(cx):
 
 
 # ----------------------------------------------------------------- R5
+_F = [None]
+
+
+def _derived_from_field(body, operand, adt, field):
+    """The operand's value is computed from a read of `adt.field` (through copies, `&&`, matches! temporaries)."""
+    l = Q.operand_local(operand)
+    if l is None:
+        return False
+    seeds = set()
+    for blk, j, st in body.stmts():
+        if st['k'] == 'assign' and not st['lhs'].get('p'):
+            for pl in Q.rvalue_places(st['rv']):
+                if Q._projects_field(pl, adt, field):
+                    seeds.add(st['lhs']['l'])
+    if not seeds:
+        return False
+    # data flow, and control dependence of a constant-assigned flag on a test of a seeded value
+    taint = Q.forward_taint(body, seeds, through_calls=[])
+    if l in taint:
+        return True
+    du = Q.DefUse(body)
+    # `a && b` / matches! lower to a flag assigned in several blocks: what decides which assignment runs
+    seen = set()
+    todo = [l]
+    while todo:
+        x = todo.pop()
+        if x in seen:
+            continue
+        seen.add(x)
+        for blk, idx, node in du.defs.get(x, []):
+            for org, lab, e in Q.dominating_conditions(_F[0], body, du, blk):
+                pl = org.get('pl') if org['k'] in ('place', 'discr') else None
+                if pl is not None and (pl['l'] in taint or Q._projects_field(pl, adt, field)):
+                    return True
+            if idx != 't' and node.get('k') == 'assign' and node['rv']['k'] == 'use':
+                src = Q.operand_place(node['rv']['o'])
+                if src is not None and not src.get('p'):
+                    todo.append(src['l'])
+    return False
+
+
+@RS.rule('C11.R5b', 'K-PASS', 'replacing the action of an existing trap record keeps a delivery that is still pending: the new state takes the '
+         'pending flag of the state it replaces (a signal caught while another trap runs is not forgotten when its trap is redefined)')
+def r5b(cx):
+    F = cx.F
+    _F[0] = F
+    fn = GRAND + '::set_action'
+    body = F.main_body(fn)
+    cx.fn(body.fn)
+    du = Q.DefUse(body)
+    ws = [(b, j, s) for b, j, s, kind, f in Q.field_writes(body, GRAND, 'current_state') if kind == 'assign' and
+          [e['f'] for e in s['lhs'].get('p') or [] if isinstance(e, dict) and 'f' in e][-1:] == ['current_state']]
+    cx.require(ws, 'set_action no longer assigns GrandState::current_state on an existing record')
+    for b, j, s in ws:
+        ok = False
+        src = s['rv']
+        o = du.origin(src['o']) if src['k'] == 'use' else {'k': 'agg', 'rv': src} if src['k'] == 'agg' else {'k': '?'}
+        if o['k'] == 'agg' and len(o['rv'].get('ops', [])) == 3:
+            ok = _derived_from_field(body, o['rv']['ops'][2], TRAPSTATE, 'pending')
+        cx.site('%s: current_state replaced at %s; pending flag carried over from the replaced state: %s' % (body.fn, body.loc(s), ok))
+        if not ok:
+            cx.violation(fn, 'pending-lost-on-replace', 'set_action overwrites the record of a signal with a fresh state whose pending flag is false: a '
+                         'signal that was caught while another trap action was running (deferred) is forgotten when that action redefines its trap - '
+                         '`trap "echo old" USR2; trap \'kill -USR2 $$; trap "echo new" USR2\' USR1; kill -USR1 $$` runs the USR2 action zero times',
+                         loc=body.loc(s))
+
+
 @RS.rule('C11.R5', 'K-PASS', 'pending flag: set only by mark_as_caught (called only by catch_signal), cleared on the only path that hands out the trap')
 def r5(cx):
     F = cx.F
+    _F[0] = F
     n = 0
     for body in F.bodies.values():
         for b, j, s, kind, f in Q.field_writes(body, TRAPSTATE, 'pending'):
@@ -463,6 +556,11 @@ def r5(cx):
                 cx.violation(body.root, 'pending-computed', 'the pending flag is assigned a computed value', loc=body.loc(s))
         for b, j, s in Q.find_aggregates(body, TRAPSTATE):
             o = s['rv']['ops'][2] if len(s['rv']['ops']) == 3 else {}
+            carried = body.root == GRAND + '::set_action' and 'c' not in o and \
+                _derived_from_field(body, o, TRAPSTATE, 'pending')
+            if carried:
+                cx.site('%s: TrapState constructed with the pending flag of the state it replaces at %s (decided by C11.R5b)' % (body.root, body.loc(s)))
+                continue
             if o.get('c') != 'false' and not body.root.endswith('core::clone::Clone>::clone') and not body.root.endswith('Default>::default'):
                 cx.site('%s: TrapState constructed with pending=%s at %s' % (body.root, o.get('c', 'computed'), body.loc(s)))
                 cx.violation(body.root, 'pending-constructed', 'a TrapState is constructed with a pending flag that is not false',
@@ -870,3 +968,13 @@ from rules.C08 import r3 as _c08_enter_subshell_tables
 from engine import Rule
 RS.rules.append(Rule('C11.R10', 'K-TABLE+K-GUARD', 'subshell entry touches only the action of a trap record (origin Inherited is preserved); '
                      'reset/ignore tables as in C08.R3', _c08_enter_subshell_tables))
+
+
+from rules.C08 import r3b as _c08_enter_subshell_origin
+RS.rules.append(Rule('C11.R10b', 'K-GUARD+K-SIBLING', 'subshell entry: a signal the shell itself starts to ignore gets origin Subshell (trappable in the '
+                     'subshell); a signal ignored on entry keeps origin Inherited; the disposition is installed even when unchanged (C08.R3b)',
+                     _c08_enter_subshell_origin))
+
+
+# --- explanation addendum (generated catalogue in DESIGN.md reads RS.explanation)
+RS.explanation += ' Added later: every batch of caught signals taken from the system reaches the collection that is drained into the trap set (R6 batch clause).'
